@@ -56,6 +56,11 @@ def numArg (w : List String) (key : String) (dflt : Nat) : Nat :=
   | some x => ((x.drop (key.length + 1)).toString).toNat!
   | none => dflt
 
+def strArg (w : List String) (key : String) : Option String :=
+  match w.find? (fun x => x.startsWith (key ++ "=")) with
+  | some x => let v := ((x.drop (key.length + 1)).toString); if v == "-" || v == "" then none else some v
+  | none => none
+
 def slotAns (s : Nat) : Ans (Node × Nat) → String
   | .ok (_, slot) => if slot = s then s!"ok:{slot}" else s!"WRONG:{slot}"
   | .notFound => "notfound"
@@ -134,17 +139,42 @@ def step (st : St) (l : String) : St × String :=
     match (st.find en.toNat!).bind (·.gsfa) with
     | none => (st, "unknown-epoch")
     | some g => (st, s!"ix={ixWord (lookupA HF.real g.ix (unhex h))}")
-  | ["addr", "rpc", h] =>
+  | "addr" :: "rpc" :: h :: rest =>
     let a := unhex h
+    let limit := numArg rest "limit" 1000
+    let before := (strArg rest "before").map unhex
+    let upto := (strArg rest "until").map unhex
     -- most recent epoch first (getGsfaReadersInEpochDescendingOrder)
     let gs := ((st.loadedEps.mergeSort fun x y => decide (x.ep.num ≥ y.ep.num)).filterMap (·.gsfa))
-    match gsfa HF.real gs a 1000 with
+    match gsfaPaged HF.real gs a limit before upto with
     | .ok txs =>
       let wrong := (txs.filter fun t => !t.mentions.contains a).length
       if wrong > 0 then (st, s!"WRONG:{wrong}/{txs.length}") else
       let sum := txs.foldl (fun acc t => (acc + (H.xxhash64 t.sig).toNat) % 2^64) 0
       (st, s!"n={txs.length} h={hexNat sum 16}")
     | _ => (st, "err")
+  -- concurrency phases: every request is answered as if it were alone (the lookups share no mutable state that
+  -- depends on the key), so the summary is "ok" iff the stored key is served and the colliding absent key is not
+  | "concurrent" :: "slot" :: via :: en :: s1 :: s2 :: _ =>
+    let (sS, sA) := (s1.toNat!, s2.toNat!)
+    let get := fun (s : Nat) =>
+      if via == "epoch" then
+        match (if st.loaded.contains en.toNat! then st.find en.toNat! else none) with
+        | none => "epoch-not-loaded"
+        | some e => slotAns s (getBlockA HF.real CarInfo.info e.ep.ix e.ep.car s)
+      else slotAns s (multiGetBlockA HF.real CarInfo.info (st.loadedEps.map (·.ep)) s)
+    let (x, y) := (get sS, get sA)
+    (st, if x == s!"ok:{sS}" && y == "notfound" then "ok" else s!"stored={x} absent={y}")
+  | "concurrent" :: "sig" :: via :: en :: g1 :: g2 :: _ =>
+    let (gS, gA) := (unhex g1, unhex g2)
+    let get := fun (g : Bytes) =>
+      if via == "epoch" then
+        match (if st.loaded.contains en.toNat! then st.find en.toNat! else none) with
+        | none => "epoch-not-loaded"
+        | some e => sigAns g (getTxA HF.real CarInfo.info e.ep.ix e.ep.car g)
+      else sigAns g (multiGetTxA HF.real CarInfo.info (st.loadedEps.map (·.ep)) g)
+    let (x, y) := (get gS, get gA)
+    (st, if x == "ok" && y == "notfound" then "ok" else s!"stored={x} absent={y}")
   | _ => (st, "bad-op")
 
 def run (lines : Array String) : IO Unit := do
